@@ -441,6 +441,7 @@ def run(repo, rep, tier):
     # a child fragment must be parsed by the factory named by ITS OWN type tag: otherwise a document whose tag and payload disagree is accepted
     rep.borrow(repo, "C04", {"R4.1": ("R15.8", "every JSON object the writer emits is read behind a closed hasKeys gate, and every key that is read reaches the field it was written from (nothing silently dropped or defaulted)", 100)},
                keep=lambda f: "hasKeys gate" in f.message or "gate" in f.stmt or "stores it into no field" in f.message)
+    rep.borrow(repo, "C04", {"R4.6": ("R15.9", "no document-derived dict is splatted into named parameters (a document toJson produced, whose keys happen to be parameter names, would be rejected)", 3)})
     rep.borrow(repo, "C04", {"R4.3": ("R15.7", "every child fragment is parsed by the factory looked up under its own type tag", 25)},
                keep=lambda f: "factory looked up" in f.message)
     r6 = rep.rule("R15.6", "ed() re-validates entries/ranges; header and version gate raise", floor=19 + 4)
@@ -652,6 +653,33 @@ def rule_gates(rep, r3, f, g, jp, expect_gate=True):
                     if not okk:
                         rep.finding("R15.3", f, n.stmt, f"key {k!r} is accepted by the gate on {objp} but never read "
                                     f"(its value is silently ignored)", stmt=f"gate key {k!r} on {objp}")
+                # ... and, for the gate on the fragment itself, on EVERY path that ends in a successful return (a path that skips
+                # the read skips the validation of that value: anything is accepted there)
+                if objp is not None and objp in f.params:
+                    from ..cfg import solve_forward
+
+                    def keys_read(node, _objp=objp):
+                        out = set()
+                        for e in header_exprs(node):
+                            if e is None:
+                                continue
+                            for sub in ast.walk(e):
+                                p = jp.path(sub) if isinstance(sub, (ast.Subscript, ast.Call)) else None
+                                if p and p.startswith(_objp + "[") and p.count("[") == 1:
+                                    out.add(p[len(_objp) + 1:-1])
+                        return out
+
+                    reads_at = {nd.id: keys_read(nd) for nd in g.nodes}
+                    states = solve_forward(g, frozenset(), lambda node, st: frozenset(set(st) | reads_at[node.id]), lambda a, b: a & b)
+                    for nd in g.nodes:
+                        if nd.kind == "stmt" and isinstance(nd.ast, ast.Return) and nd.id in states:
+                            have = set(states[nd.id]) | reads_at[nd.id]
+                            skipped = [k for k in req + opt if repr(k) in read and repr(k) not in have]
+                            r3.ob(not skipped, f"{f.qualname}: every gated key of {objp} is read on the paths returning at line {nd.lineno}")
+                            if skipped:
+                                rep.finding("R15.3", f, nd.stmt, f"a path to `{norm(nd.stmt)[:50]}` (line {nd.lineno}) never reads {skipped} of {objp}: on that path the "
+                                            f"value under the key is not validated at all, so a document with any JSON value there (a list, an object, null) "
+                                            f"is loaded instead of being rejected", stmt=f"path to a return skips the read of {skipped}")
                 for k in read:
                     kk = ast.literal_eval(k)
                     okk = kk in req + opt
